@@ -119,6 +119,7 @@ def pairings(rng, tier):
 
 
 class Prop(BaseProp):
+    replay_whole = True
     coq_targets = ['ND/Proofs/Agree.vo', 'ND/Proofs/C04_inst.vo', 'ND/Proofs/C04_proofs.vo', 'ND/Proofs/C04_nested.vo', 'ND/Proofs/C03_proofs.vo',
                    'ND/Proofs/C04_real.vo', 'ND/Proofs/C04_nderiv.vo']
     extra_model_targets = ['ND/Hand/Prog.vo']
